@@ -12,7 +12,8 @@ def rng_for(check, seed, *coords):
 
 def want(spec, cid):
     o = spec.get("only")
-    return o is None or o == cid
+    # (a replayed id may name a sub-case of `cid`: "<cid>/perturb:...", "<cid>/<label>", "tolsweep/<cid>/t3", "straddle/<cid>")
+    return o is None or o == cid or o.startswith(cid + "/") or ("/" + cid + "/") in ("/" + o + "/")
 
 
 def dense(X):
